@@ -73,8 +73,21 @@ func c01Profiles(quick bool) []*bworld.Profile {
 	late.LateOut = true
 	late.Starts = []bworld.StartSpec{{Kind: "in", Key: "k", Max: 1}, {Kind: "out", Key: "k", Max: 2}, {Kind: "io", Max: 1}}
 	late.MaxAttempts = 3
+	/* Shutdown while the terminal has stopped taking notices: attempts made
+	then are ended at once all the same (nobody is told, so nothing waits
+	for the terminal). */
+	stalled := base
+	stalled.Name = "c01-shutdown-stalled-terminal"
+	stalled.OchCap = 1
+	stalled.MaxConsume = 2
+	stalled.Cancel = false
+	stalled.MaxLines = 0
+	stalled.LateStarts = true
+	stalled.MaxOuts = 0
+	stalled.Starts = []bworld.StartSpec{{Kind: "in", Key: "k", Max: 2}, {Kind: "out", Key: "k", Max: 1}, {Kind: "io", Max: 1}, {Kind: "out", Key: "", Max: 1}}
+	stalled.MaxAttempts = 3
 	if quick {
-		return []*bworld.Profile{&late, &uni, &mixed}
+		return []*bworld.Profile{&late, &stalled, &uni, &mixed}
 	}
 	big := uni
 	big.Name = "c01-uni-4"
@@ -83,7 +96,7 @@ func c01Profiles(quick bool) []*bworld.Profile {
 		bworld.StartSpec{Kind: "out", Key: "K", Max: 1}, bworld.StartSpec{Kind: "io", Max: 1})
 	big.Cancel = false
 	mixed.Cancel = true
-	return []*bworld.Profile{&late, &uni, &mixed, &big}
+	return []*bworld.Profile{&late, &stalled, &uni, &mixed, &big}
 }
 
 func c01(r *ev.Result, tier string) {
@@ -95,6 +108,12 @@ func c01(r *ev.Result, tier string) {
 	exploreProfiles(r, budget, c01Profiles(isQuick(tier))...)
 	if !isQuick(tier) {
 		brokerRacePass(r)
+	}
+	/* Attempts inside the admission checks at the same moment. */
+	if isQuick(tier) {
+		c01Stress(r, 7000)
+	} else {
+		c01Stress(r, 140000)
 	}
 	/* A tear-down that lasts, with time passing and the system clock set. */
 	quietSpell(r, "C01")
